@@ -216,6 +216,18 @@ class TransformationPerformer:
             instruction.parameters,
         )
     )
+    if (
+        -1 in instruction.consumers
+        and trans_info.output_tensor_id != instruction.tensor_id
+    ):
+      # The graph output moved to the new tensor: signature outputs that
+      # named the old tensor must follow it.
+      for signature_def in tflite_model.signatureDefs or []:
+        if signature_def.subgraphIndex != transformation_inst.subgraph_id:
+          continue
+        for signature_output in signature_def.outputs:
+          if signature_output.tensorIndex == instruction.tensor_id:
+            signature_output.tensorIndex = trans_info.output_tensor_id
     self._update_instructions(
         transformation_index,
         transformation_inst.instructions,
